@@ -82,9 +82,11 @@ Lemma hinv_cells_by_gen : forall D h h' F,
   (forall q cq, findq h q = Some cq ->
      exists x p cx, q_win cq = Some x /\ q_parent cq = Some p /\ findw h x = Some cx /\
                     w_parent (F x cx) = Some p /\ anc h' x root) ->
+  (* the drag source stays attached to the root *)
+  (forall d, r_drag (rx h) = Some (Some d) -> ~ In root D -> findw h root <> None -> anc h' d root) ->
   hinv D h'.
 Proof.
-  intros D h h' F HI CB Hflags Hkids Horph Hfocus Hqueue.
+  intros D h h' F HI CB Hflags Hkids Horph Hfocus Hqueue Hdrag.
   constructor.
   - intros a c' Hf'. destruct (cells_by_inv h h' F a c' CB Hf') as [c [Hf E]]. subst c'.
     destruct (Hkids a c Hf) as [l [Hc Hl]]. exists l. split; auto.
@@ -115,7 +117,8 @@ Proof.
       destruct (Hqueue q cq Hfq) as [x [p [cx [H1 [H2 [H3 [H4 H5]]]]]]].
       exists x, p, (F x cx). repeat split; auto. eapply cells_by_some; eauto.
   - intros q cq Hfq. rewrite (cb_reqs h h' F CB) in Hfq. exact (hi_qkind D h HI q cq Hfq).
-  - rewrite (cb_drag h h' F CB). exact (hi_drag D h HI).
+  - rewrite (cb_drag h h' F CB). destruct (hi_drag D h HI) as [od [E Hd]]. exists od. split; [exact E|].
+    intros d Ed Hn Hl. subst od. apply Hdrag; auto. intro Hnone. apply Hl. apply (cells_by_none h h' F root CB). exact Hnone.
   - intros a Ha. rewrite (cb_nextw h h' F CB). apply (hi_nextw D h HI).
     intro Hn. apply Ha. apply (cells_by_none h h' F a CB). exact Hn.
   - rewrite (cb_nextw h h' F CB). exact (hi_nextw_root D h HI).
@@ -139,9 +142,10 @@ Lemma hinv_cells_by : forall D h h' F,
   (forall q cq, findq h q = Some cq ->
      exists x p cx, q_win cq = Some x /\ q_parent cq = Some p /\ findw h x = Some cx /\
                     w_parent (F x cx) = Some p /\ anc h' x root) ->
+  (forall d, r_drag (rx h) = Some (Some d) -> ~ In root D -> findw h root <> None -> anc h' d root) ->
   hinv D h'.
 Proof.
-  intros D h h' F HI CB Hflags Hkids Horph Hfocus Hqueue.
+  intros D h h' F HI CB Hflags Hkids Horph Hfocus Hqueue Hdrag.
   apply (hinv_cells_by_gen D h h' F HI CB); auto.
   intros a c Hf. destruct (Hflags a c Hf) as [H1 [H2 [H3 H4]]]. repeat split; auto.
   - destruct H4 as [E|E]; [|congruence]. rewrite E in H. exact (hi_parent D h HI a c p Hf H).
@@ -164,6 +168,20 @@ Proof.
       * rewrite (Hkeep a c (anc_refl h a c Hf) Hf E). exact Hp.
       * apply IH. intros a' c' Ha' Hf' Hne. apply Hkeep; auto. eapply anc_step; eauto.
 Qed.
+
+(* the drag source stays attached when no parent pointer on its way to the root changes *)
+Lemma drag_kept_path : forall D h h' F, hinv D h -> cells_by h h' F ->
+  forall d, r_drag (rx h) = Some (Some d) -> ~ In root D -> findw h root <> None ->
+  (forall a c, anc h d a -> findw h a = Some c -> a <> root -> w_parent (F a c) = w_parent c) ->
+  anc h' d root.
+Proof.
+  intros D h h' F HI CB d Hd Hn Hl Hkeep. destruct (hi_drag D h HI) as [od [E Ha]]. rewrite E in Hd. inversion Hd; subst od.
+  eapply cells_by_anc; eauto.
+Qed.
+Lemma drag_kept : forall D h h' F, hinv D h -> cells_by h h' F ->
+  (forall a c, findw h a = Some c -> w_parent (F a c) = w_parent c) ->
+  forall d, r_drag (rx h) = Some (Some d) -> ~ In root D -> findw h root <> None -> anc h' d root.
+Proof. intros D h h' F HI CB Hk d Hd Hn Hl. eapply drag_kept_path; eauto. Qed.
 
 (* composition of two cell-wise descriptions *)
 Lemma cells_by_upd_cell : forall h a f,
